@@ -103,6 +103,15 @@ def check_queries(ctx, nc, m, hist):
     st, v = ctx.call(lambda: nc == twin)
     ctx.check("queries: equal to a container rebuilt from the model content", st == "ok" and bool(v) is True, w, True, repr(v),
               mechanism="eq")
+    # ... and to a container holding the same pitches under other spellings (content is pitches: enharmonic notes are equal)
+    respelt = NoteContainer([Note(x[0]) if k % 2 == 0 else Note(x[1], x[2]) for k, x in enumerate(m.m) if 0 <= x[0] <= 127])
+    if len(respelt) == len(m.m):
+        st, v = ctx.call(lambda: nc == respelt)
+        ctx.check("queries: equal to a container rebuilt from the model content", st == "ok" and bool(v) is True, dict(w, rebuilt="with other spellings"),
+                  True, repr(v), mechanism="eq-respelt")
+        st, v = ctx.call(lambda: respelt == nc)
+        ctx.check("queries: equal to a container rebuilt from the model content", st == "ok" and bool(v) is True, dict(w, rebuilt="with other spellings"),
+                  True, repr(v), mechanism="eq-respelt")
     free = 130
     while free in pitches:
         free += 1
@@ -302,6 +311,18 @@ def run(shard, ctx):
                 st, nc2 = ctx.call(NoteContainer().from_chord, r + sh)
                 ctx.check("constructors: from_chord is the same", st == "ok" and st and nc2 == nc, {"shorthand": r + sh})
                 ctx.case(("ctor-chord", r + sh))
+        # slash chords whose bass is a chord tone, polychords whose halves share names, the same chord twice: every name of
+        # the chord in order, a name that comes again an octave up
+        for text in ["C/E", "C/G", "Am/E", "G7/B", "F/A", "Am|C", "C|C", "Dm7|F", "Em/E", "C/C", "G7/F", "Cm/Eb|Ab", "F#m7/C#"]:
+            names = chords.from_shorthand(text)
+            exp = SetModel()
+            for x in names:
+                exp.add(x)
+            st, nc = ctx.call(NoteContainer().from_chord_shorthand, text)
+            ok = st == "ok" and [(int(x), x.name) for x in nc.notes] == [(p, n) for (p, n, _o) in exp.m]
+            ctx.check("constructors: chord shorthand starts on the root in octave 4 and ascends through the chord in order", ok,
+                      {"shorthand": text}, [(n, o) for (_p, n, o) in exp.m], repr(nc), mechanism="ctor:chord-repeated-names")
+            ctx.case(("ctor-chord", text))
         ctx.sample({"from_chord_shorthand('Am')": repr(NoteContainer().from_chord_shorthand("Am"))})
     elif kind == "ctor-intervals":
         for n in T.pure_names(2):
